@@ -440,6 +440,7 @@ func init() {
 		c.runCacheKeySeparator(r, "cachekey.separator", all)
 		c.runMemoNilResult(r, "memo.nilresult", all)
 		c.runHeaderSemicolon(r, "parse.headersemi", "wgsl/internal/parser")
+		c.runTemplateClose(r, "template.close", "wgsl/internal/parser")
 		cnt := map[string]int{}
 		for _, o := range r.Obs {
 			if o.Verdict == "ok" || o.Verdict == "trivial" {
@@ -455,4 +456,76 @@ func init() {
 			println(k, v)
 		}
 	}
+}
+
+// template.close (C08, C19): in WGSL a '>' is only ever *expected* as the end of
+// a template list, and the lexer may have fused it with what follows ('>>',
+// '>=', '>>='). The parser has one helper that splits all three (the function
+// that tests TokenGreaterEqual and TokenGreaterGreaterEqual); no other call may
+// expect TokenGreater directly, or `var x: vec2<f32>= ...` is rejected at that
+// site only.
+func (c *Ctx) runTemplateClose(r *Report, rule string, pkg string) {
+	n, helpers := 0, 0
+	var helper *types.Func
+	for _, fn := range c.allFuncs() {
+		if fn.Pkg.Rel != pkg || fn.Obj == nil {
+			continue
+		}
+		ge, gge := false, false
+		ast.Inspect(fn.Decl.Body, func(m ast.Node) bool {
+			if id, ok := m.(*ast.Ident); ok {
+				switch irConstNameAny(fn.Pkg.Info, id) {
+				case "TokenGreaterEqual":
+					ge = true
+				case "TokenGreaterGreaterEqual":
+					gge = true
+				}
+			}
+			return true
+		})
+		if ge && gge && len(fn.Decl.Body.List) <= 8 && fn.Obj.Type().(*types.Signature).Params().Len() == 0 {
+			helper = fn.Obj
+			helpers++
+		}
+	}
+	r.inst("template.close.helper", helpers)
+	if helper == nil {
+		return
+	}
+	for _, fn := range c.allFuncs() {
+		if fn.Pkg.Rel != pkg || fn.Obj == helper {
+			continue
+		}
+		info := fn.Pkg.Info
+		ord := 0
+		ast.Inspect(fn.Decl.Body, func(m ast.Node) bool {
+			call, ok := m.(*ast.CallExpr)
+			if !ok {
+				return true
+			}
+			f := calleeOf(info, call)
+			if f == nil {
+				return true
+			}
+			if f.Origin() == helper {
+				n++
+				ord++
+				r.ok(rule, fn.id()+":close#"+itoa(ord), c.pos(call.Pos()), "")
+				return true
+			}
+			// a direct expectation of TokenGreater (a function whose result is an error / *ParseError, not a bool test)
+			if len(call.Args) == 1 && irConstNameAny(info, call.Args[0]) == "TokenGreater" {
+				sig := f.Type().(*types.Signature)
+				if sig.Results().Len() == 1 {
+					if _, isPtr := sig.Results().At(0).Type().(*types.Pointer); isPtr {
+						n++
+						ord++
+						r.viol(rule, fn.id()+":close#"+itoa(ord), c.pos(call.Pos()), fn.id()+" expects the '>' that ends a template list with "+f.Name()+"(TokenGreater) instead of "+helper.Name()+"(): a list directly followed by '=' (lexed as '>=') is rejected here")
+					}
+				}
+			}
+			return true
+		})
+	}
+	r.inst("template.close", n)
 }
